@@ -110,7 +110,10 @@ func runHistory(w *worker, c Case) outcome {
 	if buildErr != nil {
 		got = "error"
 	}
-	if o.status != "invalid" && got != fresh {
+	if ok, how := rg.Intact(); !ok {
+		o.status = "violation"
+		o.v = verdict{kind: "router_state_changed", detail: how}
+	} else if o.status != "invalid" && got != fresh {
 		o.status = "violation"
 		o.v = verdict{kind: "plan_differs_after_history", detail: fmt.Sprintf("after the prefix the statement is sent as [%s], a fresh router sends [%s]", strings.ReplaceAll(got, "\n", " "), strings.ReplaceAll(fresh, "\n", " "))}
 	}
